@@ -40,7 +40,7 @@ var c06Positions = []c06Pos{
 }
 
 // forms: how the text under test is placed in the language list
-var c06Forms = []string{"single-untagged", "single-tagged", "map-first", "map-second"}
+var c06Forms = []string{"single-untagged", "single-tagged", "map-first", "map-second", "map-cased-tags"}
 
 var c06Channels = []string{"json-pkg", "json-method", "gob"}
 
@@ -56,6 +56,9 @@ func c06Build(p c06Pos, form string, text []byte) any {
 		n = ap.NaturalLanguageValues{{Ref: "en", Value: ap.Content(text)}, other}
 	case "map-second":
 		n = ap.NaturalLanguageValues{other, {Ref: "en", Value: ap.Content(text)}}
+	case "map-cased-tags":
+		// BCP 47 tags with upper-case subtags: the tags of a map must come back exactly
+		n = ap.NaturalLanguageValues{{Ref: "zh-Hant", Value: ap.Content("繁體")}, {Ref: "en-US", Value: ap.Content(text)}, {Ref: "sr-Latn-RS", Value: ap.Content("tekst")}}
 	}
 	var host any
 	if p.actor {
@@ -142,9 +145,9 @@ func init() {
 		Assumptions: []string{"texts are valid UTF-8 (the stated domain)"},
 		Bound: func(tier string) string {
 			if tier == "thorough" {
-				return "L = 3 for all positions/forms/channels (33 824 texts x 63); L = 4 for content in all forms and channels (1 048 576 texts x 12)"
+				return "L = 3 for all positions/forms/channels (33 824 texts x 78); L = 4 for content in all forms and channels (1 048 576 texts x 15)"
 			}
-			return "L = 3 for all positions/forms/channels (33 824 texts x 63)"
+			return "L = 3 for all positions/forms/channels (33 824 texts x 78)"
 		},
 		DeadlineQuick: 5 * time.Minute, DeadlineThorough: 40 * time.Minute,
 		Run: c06Run,
@@ -206,6 +209,18 @@ func c06Run(c *engine.Ctx) {
 			case "single-untagged", "single-tagged":
 				if len(got) == 1 {
 					gotText, found = got[0].Value, true
+				}
+			case "map-cased-tags":
+				for _, e := range got {
+					if e.Ref == "en-US" {
+						gotText, found = e.Value, true
+					}
+				}
+				if len(got) != 3 || !tags["en-US"] || !tags["zh-Hant"] || !tags["sr-Latn-RS"] {
+					t.Fail(key("map-tags"), "language tags after decode: %q (json %q)", got, js)
+					if !found {
+						return
+					}
 				}
 			default:
 				for _, e := range got {
